@@ -39,9 +39,40 @@ def load_contracts():
     return api
 
 
+_SCALE = [None]
+
+
+def machine_scale():
+    """how much slower than the reference machine (where the budgets were sized) this run is: the time of a
+    fixed, deterministic solver job (pigeonhole 10 into 9) over its reference time; >= 1"""
+    if _SCALE[0] is not None:
+        return _SCALE[0]
+    if os.environ.get("PYVC_TIME_SCALE"):
+        _SCALE[0] = float(os.environ["PYVC_TIME_SCALE"])
+        return _SCALE[0]
+    if not os.environ.get("PYVC_AUTO_SCALE"):
+        _SCALE[0] = 1.0
+        return 1.0
+    import z3
+    t = time.time()
+    n = 9
+    s = z3.Solver()
+    p = [[z3.Bool("p_%d_%d" % (i, j)) for j in range(n)] for i in range(n + 1)]
+    for i in range(n + 1):
+        s.add(z3.Or(p[i]))
+    for j in range(n):
+        for i in range(n + 1):
+            for k in range(i):
+                s.add(z3.Or(z3.Not(p[i][j]), z3.Not(p[k][j])))
+    s.check()
+    _SCALE[0] = max(1.0, min(8.0, (time.time() - t) / 1.4))
+    return _SCALE[0]
+
+
 def make_engine(api):
     from . import verify
     eng = verify.build_engine(REPO, CONTRACTS_DIR)
+    eng.scale_timeouts(machine_scale())
     try:
         from contracts.common import AVP_ELEM
         eng.default_elem = AVP_ELEM
@@ -77,8 +108,8 @@ def _worker(kind, idx, tier):
             _API = load_contracts()
         eng = make_engine(_API)
         if tier == "thorough":
-            eng.vc_timeout_ms = 120000
-            eng.cvc5_timeout_s = 120
+            eng.vc_timeout_ms = int(120000 * eng.time_scale)
+            eng.cvc5_timeout_s = int(120 * eng.time_scale)
         if kind == "contract":
             c = _API.REGISTRY[idx]
             # the loop specs of the contract being proved take precedence
@@ -280,7 +311,7 @@ def main(argv=None):
     results = []
     crashes = []
     timed_out = []
-    task_limit = float(os.environ.get("PYVC_TASK_LIMIT_S", "1500" if tier == "thorough" else "420"))
+    task_limit = float(os.environ.get("PYVC_TASK_LIMIT_S", "1500" if tier == "thorough" else "420")) * machine_scale()
     results, crashes, timed_out = run_tasks(tasks, tier, args.jobs, task_limit, api)
 
     # ---- aggregate
